@@ -391,10 +391,11 @@ func Emission(sc *Scn, r *Result, i int) []Issue {
 		if t < sc.First || t > sc.Last {
 			out = append(out, Issue{"ttl-out-of-range", fmt.Sprintf("ttl %d not in %d..%d", t, sc.First, sc.Last)})
 		}
-		if prevT >= 0 && e.T-prevT < int64(sc.SendDelayMs())*1e6 {
-			out = append(out, Issue{"pacing", fmt.Sprintf("probes ttl %d and %d are %.3fms apart, delay is %dms", t-1, t, float64(e.T-prevT)/1e6, sc.SendDelayMs())})
+		// pacing is observed where the property observes it: the instants at which the packets are passed to Sink.WriteTo
+		if prevT >= 0 && e.CallT-prevT < int64(sc.SendDelayMs())*1e6 {
+			out = append(out, Issue{"pacing", fmt.Sprintf("probes ttl %d and %d are passed to the sink %.3fms apart, delay is %dms", t-1, t, float64(e.CallT-prevT)/1e6, sc.SendDelayMs())})
 		}
-		prevT = e.T
+		prevT = e.CallT
 		if k == 0 {
 			src, dst, sport, dport = p.Src, p.Dst, p.SrcPort, p.DstPort
 		} else if p.Src != src || p.Dst != dst || p.SrcPort != sport || p.DstPort != dport {
